@@ -158,6 +158,8 @@ pub enum Outcome {
     /// failure matching the signature of a listed known finding
     Known { key: String, detail: String },
     Fail(String),
+    /// the harness / reference model is at fault: exit 2, never a violation
+    Infra(String),
 }
 
 #[derive(Clone, Debug)]
@@ -185,6 +187,9 @@ impl Verdict {
         if matches!(self.outcome, Outcome::Pass | Outcome::Known { .. }) {
             self.outcome = Outcome::Fail(m.into());
         }
+    }
+    pub fn infra(&mut self, m: impl Into<String>) {
+        self.outcome = Outcome::Infra(m.into());
     }
     pub fn known(&mut self, key: &str, detail: impl Into<String>) {
         if matches!(self.outcome, Outcome::Pass) {
@@ -463,6 +468,10 @@ pub fn run_check<C: Check>(opts: &RunOpts) -> i32 {
                 println!("KNOWN-FINDING: property={id} {key}: {detail}");
                 0
             }
+            Outcome::Infra(m) => {
+                eprintln!("{id}: infrastructure problem: {m}");
+                2
+            }
             Outcome::Fail(m) => {
                 println!("{id}: replay fails: {m}");
                 println!("VIOLATION property={id} replay={}", path.display());
@@ -539,6 +548,10 @@ pub fn run_check<C: Check>(opts: &RunOpts) -> i32 {
                 known_replays.insert(key.clone(), true);
                 *known_hits.lock().unwrap().entry(key.clone()).or_insert(0) += 1;
             }
+            Outcome::Infra(m) => {
+                eprintln!("{id}: infrastructure problem in regression replay {}: {m}", p.display());
+                return 2;
+            }
             Outcome::Pass => {}
         }
     }
@@ -578,6 +591,14 @@ pub fn run_check<C: Check>(opts: &RunOpts) -> i32 {
                     };
                     let v = settle(C::ID, known, run_guarded::<C>(&case));
                     account(&case, &v, idx);
+                    if let Outcome::Infra(m) = &v.outcome {
+                        eprintln!("{}: infrastructure problem (harness or reference model, not the code under test) in case #{idx}: {m}", C::ID);
+                        let js = serde_json::to_string_pretty(&case).unwrap_or_default();
+                        let path = out_dir().join(format!("{}-infra-{:016x}.json", C::ID, hash_str(&js)));
+                        let _ = std::fs::write(&path, js);
+                        eprintln!("case written to {}", path.display());
+                        std::process::exit(2);
+                    }
                     if let Outcome::Fail(m) = &v.outcome {
                         let mut f = found.lock().unwrap();
                         if f.as_ref().map(|x| idx < x.index).unwrap_or(true) {
